@@ -61,14 +61,16 @@ theorem safe_createTopic (s : St) (ph : Nat) (n : String) (kd : Bool) : Safe s (
       · simp only
         split <;> safe_close
 
-theorem safe_createCft (s : St) (r : TopicRef) (n : String) : Safe s (createCft s r n) := by
+theorem safe_createCft (s : St) (r : TopicRef) (n : String) (v : Bool) : Safe s (createCft s r n v) := by
   unfold createCft
   split
   · safe_close
   · split
     · safe_close
-    · simp only
-      split <;> safe_close
+    · split
+      · safe_close
+      · simp only
+        split <;> safe_close
 
 theorem safe_createWriter (s : St) (r : GroupRef) (t : String) (m : Option Nat) (c : Bool) :
     Safe s (createWriter s r t m c) := by
@@ -114,7 +116,7 @@ theorem safe_step (s : St) (op : Op) (ht : isTreeOp op = true) : Safe s (step s 
   | deleteSub via r => exact safe_deleteSub s via r
   | createTopic ph n k => exact safe_createTopic s ph n k
   | deleteTopic via r => exact safe_deleteTopic s via r
-  | createCft r n => exact safe_createCft s r n
+  | createCft r n v => exact safe_createCft s r n v
   | deleteCft ph n => exact safe_deleteCft s ph n
   | createWriter r t m c => exact safe_createWriter s r t m c
   | deleteWriter via w => exact safe_deleteWriter s via w
